@@ -30,7 +30,7 @@ import (
 
 var docValStrings = []string{"hello", "yes", "no", "true", "null", "~", "0x1f", "1e3", "12", "2002-08-15", "a: b", "- x", "#c", "'q'", "\"dq\"",
 	"tab\there", "multi\nline", "trailing ", " leading", "é↑", "{{matrix}}", "$HOME", "a,b", "[x]", "{y}", "&a", "*b", "!tag", "%d", "@at",
-	"`bt`", "|", ">", "?", ":", "-", "=", "<", "cr\rlf", "crcrlf\r\r\nend", "crlf\r\nend", "lfcr\n\rend", "tail\r", "x y", "\U0001F600", "0", "-1", "1.0", "on", "OFF", "Null", "3:25:45"}
+	"`bt`", "|", ">", "?", ":", "-", "=", "<", "cr\rlf", "tRUE", "fALSE", "nULL", "yES", "crcrlf\r\r\nend", "crlf\r\nend", "lfcr\n\rend", "tail\r", "x y", "\U0001F600", "0", "-1", "1.0", "on", "OFF", "Null", "3:25:45"}
 var docKeyStrings = []string{"k", "a b", "", "12", "0xc", "+12", "True", "true", "null", "~", "x: y", "#h", "'s'", "é", "0x1f", "1e3", "- d", "[", "*s", "&r", "!t", "|", ">",
 	"%p", "@a", "yes", "multi\nkey", "agents", "retry", "if", "depends_on", "soft_fail", "timeout_in_minutes", "0", "-", "?", "k2", "k3", "zz"}
 var docSources = []string{"docker#v1", "my-org/thing#main", "ecr", "github.com/buildkite-plugins/docker-buildkite-plugin#v2", "./local", "https://example.com/p.git#v1"}
@@ -123,6 +123,51 @@ func mustAVJSON(b []byte, what string) any {
 func docPoison() {
 	for rep := 0; rep < 12; rep++ {
 		docPoisonOnce()
+	}
+}
+
+// docPoisonRejected: more history. Documents that the decoder REJECTS half-way through a mapping (a null key, a
+// sequence as a key) whose good keys are the very key names of the document decoded next.
+func docPoisonRejected(src string) {
+	var n yaml.Node
+	if err := yaml.Unmarshal([]byte(src), &n); err != nil {
+		return
+	}
+	keys, seen := []string{}, map[string]bool{}
+	var walk func(x *yaml.Node, depth int)
+	walk = func(x *yaml.Node, depth int) {
+		if x == nil || depth > 40 {
+			return
+		}
+		if x.Kind == yaml.MappingNode {
+			for i := 0; i+1 < len(x.Content); i += 2 {
+				if k := x.Content[i]; k.Kind == yaml.ScalarNode && k.Tag != "!!merge" && !seen[k.Value] {
+					seen[k.Value] = true
+					keys = append(keys, k.Value)
+				}
+			}
+		}
+		if x.Kind != yaml.AliasNode {
+			for _, c := range x.Content {
+				walk(c, depth+1)
+			}
+		}
+	}
+	walk(&n, 0)
+	var sb strings.Builder
+	sb.WriteString("{")
+	for _, k := range keys {
+		sb.Write(asciiJSON(k))
+		sb.WriteString(": 1, ")
+	}
+	body := sb.String()
+	for _, poison := range []string{"steps: []\nzz: {a: " + body + "[q]: oops}}\n", body + "~: oops}\n"} {
+		func() {
+			defer func() { recover() }()
+			pipeline.Parse(strings.NewReader(poison))
+			m := ordered.NewMap[string, any](0)
+			yaml.Unmarshal([]byte(poison), m)
+		}()
 	}
 }
 
@@ -357,6 +402,37 @@ func historyFromDoc(d any, hist int) any {
 				m.Delete(fmt.Sprintf("\x00junk%d", i))
 			}
 			m.Replace("\x00tmp", x[0][0].(string), historyFromDoc(x[0][1], hist))
+		case hist == 5 && len(x) >= 2:
+			// a rename ONTO an existing key (its former slot, at the end, is left behind) and only then enough
+			// deletions to make the map compact its storage: what the compaction keeps is the live pairs
+			n := 2*len(x) + 1
+			for i := 0; i < n; i++ {
+				m.Set(fmt.Sprintf("\x00junk%d", i), i)
+			}
+			m.Set("\x00tmp", "tmp")
+			for _, p := range x[1:] {
+				m.Set(p[0].(string), historyFromDoc(p[1], hist))
+			}
+			m.Set(x[0][0].(string), "stale")
+			m.Replace("\x00tmp", x[0][0].(string), historyFromDoc(x[0][1], hist))
+			for i := 0; i < n; i++ {
+				m.Delete(fmt.Sprintf("\x00junk%d", i))
+			}
+		case hist == 6 && len(x) >= 2:
+			// the same with the left-behind slot BEFORE the renamed one, the junk after everything
+			m.Set(x[0][0].(string), "stale")
+			m.Set("\x00tmp", "tmp")
+			for _, p := range x[1:] {
+				m.Set(p[0].(string), historyFromDoc(p[1], hist))
+			}
+			m.Replace("\x00tmp", x[0][0].(string), historyFromDoc(x[0][1], hist))
+			n := 2*len(x) + 3
+			for i := 0; i < n; i++ {
+				m.Set(fmt.Sprintf("\x00junk%d", i), i)
+			}
+			for i := n - 1; i >= 0; i-- {
+				m.Delete(fmt.Sprintf("\x00junk%d", i))
+			}
 		default:
 			for _, p := range x {
 				m.Set(p[0].(string), historyFromDoc(p[1], hist))
@@ -429,7 +505,7 @@ func runCDoc(args []string) {
 				sz = 9 + rng.Intn(32)
 			}
 			d := g.freeMap(0, sz)
-			for hist := 0; hist < 5; hist++ {
+			for hist := 0; hist < 7; hist++ {
 				tw.emit(progEvent(d, hist))
 			}
 		}
@@ -480,6 +556,7 @@ func runCDoc(args []string) {
 			}
 			if c["poison"] == true {
 				docPoison()
+				docPoisonRejected(c["src"].(string))
 			}
 			ev := docEvent(c["src"].(string), nil, c["style"].(string), R)
 			ev["doc"] = c["doc"]
@@ -498,6 +575,7 @@ func runCDoc(args []string) {
 			for _, r := range docRenderings(doc, rng, fl.int("yaml", 2)) {
 				if i%4 == 1 {
 					docPoison()
+					docPoisonRejected(r[0].(string))
 				}
 				ev := docEvent(r[0].(string), r[1], r[2].(string), R)
 				ev["poison"] = i%4 == 1
